@@ -522,6 +522,31 @@ func vfEnvRun(t testing.TB, sc vfScript) []map[string]any {
 			switch {
 			case id == "f":
 				if forged != nil { // a forgery the attacker could not build is not presented
+					if pf, _ := vfBool(sc.Cfg, "pushfirst"); pf {
+						// the attacker first relays every honest envelope of that group as a push payload whose
+						// CID field (protected by the group secret only) names the FORGED entry: whatever the
+						// receiver records while opening the push must not vouch for the forged entry later
+						npush := 0
+						for _, l := range honOrder {
+							m := hon[l]
+							if m.gl != gl {
+								continue
+							}
+							menv, hdr, err := ew.stores["x"].ss.OpenEnvelopeHeaders(m.env, ew.groups[gl])
+							if err != nil {
+								continue
+							}
+							oos, err := ew.stores["x"].ss.SealOutOfStoreMessageEnvelope(vfCID(forged), menv, hdr, ew.groups[gl])
+							if err != nil {
+								continue
+							}
+							b, _ := proto.Marshal(oos)
+							if _, _, _, _, err := R.ss.OpenOutOfStoreMessage(ctx, b); err == nil {
+								npush++
+							}
+						}
+						out = append(out, map[string]any{"ev": "pushfirst", "i": i, "n": npush})
+					}
 					out = append(out, open("f", gl, forged, true))
 				}
 			case id == "t":
